@@ -15,6 +15,7 @@ FN2 = "is_some(find_next_line_break_pos(%s(find_next_line_break_pos(%sbyte_pos, 
 FP1 = "is_some(find_prev_line_break_pos(%sbyte_pos, true))" % C
 FP2 = "is_some(find_prev_line_break_pos(%sfind_prev_line_break_pos(%sbyte_pos, true).some, true))" % (C, C)
 NL = "eq(Some(10), content.as_bytes().get(byte_pos))"
+NL2 = "content[byte_pos..].starts_with('\\n')"
 BND = "content.is_char_boundary(byte_pos)"
 
 
@@ -192,7 +193,8 @@ def _abbr(t):
 
 
 def empty_line_table(ctx, res, rule):
-    names = {BND: "boundary", NL: "seam_is_lb", FN1: "n1", FN2: "n2", FP1: "p1", FP2: "p2"}
+    # NL2: the same question asked of the string (defined, and equal to NL, at a char boundary - the only rows specified)
+    names = {BND: "boundary", NL: "seam_is_lb", NL2: "seam_is_lb", FN1: "n1", FN2: "n2", FP1: "p1", FP2: "p2"}
 
     def classify(k, v):
         if k in names:
